@@ -1,6 +1,7 @@
 """C07 -- scalar conversion is exact or refused (spec/Convert.tla, spec/BigNat.tla)."""
 import json
 import struct
+import time
 from concurrent.futures import ThreadPoolExecutor
 
 import vlib
@@ -30,9 +31,11 @@ MANIFEST = dict(
 
 CFG = {
     "quick": dict(mc="MC_Convert.cfg", gen="Gen_Convert.cfg", full16=False, nrand=24, ks=(0, 7, 8, 15, 16, 31, 32, 63, 64),
-                  text_frac=0.18, long_digits=(40, 310), chunks=12),
+                  text_frac=0.18, long_digits=(40, 310), chunks=8, api_stride={"data": 2, "iter": 3},
+                  bn=("MC_BigNat.cfg", "MC_BigNat_16.cfg")),
     "thorough": dict(mc="MC_Convert_t.cfg", gen="Gen_Convert_t.cfg", full16=True, nrand=400, ks=tuple(range(0, 65)),
-                     text_frac=1.0, long_digits=(40, 310, 4950), chunks=16),
+                     text_frac=1.0, long_digits=(40, 310, 4950), chunks=16, api_stride={"data": 1, "iter": 1},
+                     bn=("MC_BigNat_t.cfg", "MC_BigNat_16.cfg")),
 }
 
 TYPES = "cbynqiuxtlfde"
@@ -277,7 +280,7 @@ def gen_conv_cases(ck, cfg):
         for dst in TYPES:
             apis = ("value",) if big else ("value", "data", "iter")
             for api in apis:
-                for hx in vals:
+                for hx in (vals if api == "value" else vals[::cfg["api_stride"][api]]):
                     cases.append({"a": "conv", "arg": {"api": api, "src": src, "dst": dst, "bytes": hx}})
         if big:     # 16-bit exhaustive through the converter itself for a few targets
             for dst in "cbyqif":
@@ -419,14 +422,14 @@ def run(tier):
     cfg = CFG[tier]
     ck = vlib.Check(PID, tier)
     exe = vlib.build_driver("convert", ["convert.c"])
-    pool = ThreadPoolExecutor(max_workers=4)
+    pool = ThreadPoolExecutor(max_workers=6)
 
     # 1. model level: limb arithmetic against TLC integers; design => meaning on scaled types
-    f_bn4 = pool.submit(vlib.tlc, "MC_BigNat", "MC_BigNat.cfg", 4, tag="MC_BigNat4")
-    f_bn16 = pool.submit(vlib.tlc, "MC_BigNat", "MC_BigNat_16.cfg", 4, tag="MC_BigNat16")
-    f_mc = pool.submit(vlib.tlc, "MC_Convert", cfg["mc"], xss="256m", tag="MC_Convert", coverage=False)
+    f_bn4 = pool.submit(vlib.tlc, "MC_BigNat", cfg["bn"][0], 4, tag="MC_BigNat4")
+    f_bn16 = pool.submit(vlib.tlc, "MC_BigNat", cfg["bn"][1], 4, tag="MC_BigNat16")
+    f_mc = pool.submit(vlib.tlc, "MC_Convert", cfg["mc"], 8, xss="256m", tag="MC_Convert")
     # 2. binding A: cases + admissible result sets enumerated by TLC at the real widths
-    f_gen = pool.submit(vlib.tlc, "Gen_Convert", cfg["gen"], xss="256m", tag="Gen_Convert")
+    f_gen = pool.submit(vlib.tlc, "Gen_Convert", cfg["gen"], 8, xss="256m", tag="Gen_Convert")
 
     # 3. binding B inputs (generated while TLC runs)
     convs = gen_conv_cases(ck, cfg)
@@ -434,6 +437,8 @@ def run(tier):
     bcases = convs + texts
     brecs = run_cases(exe, bcases, parts=8)
     events = to_events(bcases, brecs)
+    vlib.log("B: %d conversions executed (%.1fs)" % (len(bcases), time.time() - ck.t0))
+    f_val = pool.submit(validate_events, events, cfg["chunks"], "Trace_Convert")     # 3b. TLC judges the recorded events
 
     gen = f_gen.result()
     if gen.error:
@@ -443,6 +448,7 @@ def run(tier):
     if not behs:
         raise vlib.MachineryError("case export produced nothing")
     acases = expand_gen(behs)
+    vlib.log("A: %d cases exported by TLC (%.1fs)" % (len(acases), time.time() - ck.t0))
     arecs = run_cases(exe, acases, parts=8)
     n_acc = n_must = 0
     nontriv = set()
@@ -470,8 +476,10 @@ def run(tier):
     ck.notes["replayed_accepted_and_equal"] = n_acc
     ck.notes["replayed_refusal_obliged"] = n_must
 
+    vlib.log("A: compared (%.1fs)" % (time.time() - ck.t0))
     # 3b. TLC judges the recorded events
-    rejected, matched, trans = validate_events(events, cfg["chunks"], "Trace_Convert")
+    rejected, matched, trans = f_val.result()
+    vlib.log("B: %d events judged by TLC, %d rejected (%.1fs)" % (matched, len(rejected), time.time() - ck.t0))
     ck.cov["transitions"] += trans
     confirmed = []
     if rejected:
